@@ -225,10 +225,15 @@ class TerminalSitesScan(FiniteTask):
 def tasks(tier):
     from contracts.assoc_abort import NegotiateReleaseTask, AbortTask
     ts = [SendTask(), StateWriterScan(), LifecycleScan(), recvpath.DecodeTask(), recvpath.DecodeFailTask(), TerminalSitesScan(),
-          NegotiateReleaseTask(), AbortTask("C27/")]
+          NegotiateReleaseTask(), AbortTask("C27/"), _assoc_reactor()]
     ts += [C04.ActionTask(a) for a in sorted(S.ACTIONS)]
     ts += [C04.DoActionTask(e) for e in S.EVENTS]
     return ts
+
+
+def _assoc_reactor():
+    from contracts.C07 import RunReactorTask
+    return RunReactorTask()
 
 
 def replay(rec):
